@@ -53,18 +53,14 @@ def has_call(f, blk, name):
     return any(f.nodes[x]["k"] == "call" and f.nodes[x].get("callee") == name for x in f.blocks[blk].elems)
 
 
-def run(ctx):
-    P = Program(("libxcm",))
-    ctx.analysed = {"units": len(P.units), "functions": len(P.functions)}
-    ctx.explanation = ("Must-follow / must-pass path rules on the framework wrappers and on every transport's update op, switch-case typestate on the "
-                       "connection state, constant-flag checks on the registrations of the connect tracker and the resolver.")
-    ctx.trust("epoll reports a registered descriptor's readiness; OpenSSL reports WANT_READ/WANT_WRITE truthfully")
-    tables = TP.ops_tables(P)
-
-    # ------------------------------------------------------------------ R1
-    r1 = ctx.rule("C04.R1", "the socket's interest set is brought up to date after every operation")
-    for name, when in (("xcm_tp_socket_send", "always"), ("xcm_tp_socket_receive", "always"), ("xcm_tp_socket_finish", "always"),
-                       ("xcm_tp_socket_connect", "success"), ("xcm_tp_socket_server", "success"), ("xcm_tp_socket_accept", "success")):
+def check_update_after_ops(P, r1, ops=None):
+    """the framework wrappers bring the socket's interest set up to date after the transport op (C04.R1; the same
+    obligation is a necessary condition of C01 - a buffered frame is flushed - and of C16 - EPOLLOUT is dropped)"""
+    table = (("xcm_tp_socket_send", "always"), ("xcm_tp_socket_receive", "always"), ("xcm_tp_socket_finish", "always"),
+             ("xcm_tp_socket_connect", "success"), ("xcm_tp_socket_server", "success"), ("xcm_tp_socket_accept", "success"))
+    for name, when in table:
+        if ops is not None and name not in ops:
+            continue
         f = P.fn(name)
         r1.instance(name)
         bad = []
@@ -109,6 +105,19 @@ def run(ctx):
             r1.violation("%s:no-update" % name, "%s %s: the epoll registrations keep the interest of the state before the call (a wake-up can be lost)" % (name, bad[0]), loc=f.file)
         else:
             r1.ok("%s: update follows the transport op on every %s path" % (name, "return" if when == "always" else "successful"), "path exploration")
+
+
+def run(ctx):
+    P = Program(("libxcm",))
+    ctx.analysed = {"units": len(P.units), "functions": len(P.functions)}
+    ctx.explanation = ("Must-follow / must-pass path rules on the framework wrappers and on every transport's update op, switch-case typestate on the "
+                       "connection state, constant-flag checks on the registrations of the connect tracker and the resolver.")
+    ctx.trust("epoll reports a registered descriptor's readiness; OpenSSL reports WANT_READ/WANT_WRITE truthfully")
+    tables = TP.ops_tables(P)
+
+    # ------------------------------------------------------------------ R1
+    r1 = ctx.rule("C04.R1", "the socket's interest set is brought up to date after every operation")
+    check_update_after_ops(P, r1)
     cau = P.fn("consider_auto_update")
     r1.instance("consider_auto_update")
     okc = any(cau.fields_of(cond)[-1:] == ("auto_update",) and any(has_call(cau, bb, "xcm_tp_socket_update") for bb in C.only_via_edge(cau, b, "T")) for b, cond in C.cond_blocks(cau))
@@ -436,6 +445,38 @@ def run(ctx):
                               % (f.name, f.show(stale[0])[:60], sorted(d.name for d in drivers if any(True for _ in [1]))[:6]), loc=f.loc(stale[0]))
             else:
                 r11.ok("%s advances the state machine before every test of the state" % f.qname, "path exploration")
+
+    # ------------------------------------------------------------------ R12
+    # the timers are absolute expiry times handed to a timerfd: the clock they are computed on must be the timerfd's clock
+    r12 = ctx.rule("C04.R12", "timer expiry times are taken from the clock the timerfd runs on")
+    tm_fns = P.fns_in("core/timer_mgr.c")
+    tclk = {C.const_of(f, f.nodes[c]["args"][0]) for f in tm_fns for c in f.calls("timerfd_create")}
+    if len(tclk) != 1 or None in tclk:
+        raise Broken("C04.R12: clock of timerfd_create not a single constant (%s)" % tclk)
+    srcs = {}
+    seen12, work12 = set(), list(tm_fns)
+    while work12:
+        f = work12.pop()
+        if f.key in seen12:
+            continue
+        seen12.add(f.key)
+        for c in f.calls():
+            n = f.nodes[c]
+            if n.get("callee") == "clock_gettime":
+                srcs[(f.qname, c)] = C.const_of(f, n["args"][0])
+            for d in P.callees(f, c)[0]:
+                if d.file.endswith(("core/timer_mgr.c", "common/util.c")):
+                    work12.append(d)
+    if not srcs:
+        raise Broken("C04.R12: the time source of timer_mgr was not found")
+    for (q, c), clk in sorted(srcs.items()):
+        r12.instance("%s: clock_gettime(%s)" % (q, clk))
+        if clk in tclk:
+            r12.ok("%s reads clock %s, the timerfd's" % (q, clk), "constant agreement")
+        else:
+            r12.violation("%s:clock-mismatch" % q.split(":")[-1], "expiry times come from clock %s while the timerfd was created on clock %s: whenever the two differ (time spent "
+                          "suspended, clock steps) every timer - connect timeout, resolver timeout, delayed attempt - fires late or never, and nothing else wakes the socket"
+                          % (clk, sorted(tclk)[0]), loc=q)
 
     pe = P.fn("process_ssl_event")
     r6.instance(pe.qname)
